@@ -750,4 +750,14 @@ theorem gpc_exact (S : LeafSpec ev G) (X Y Z : Nat) (m : M) (g : VC) (hg : M.Goo
                       rw [hvc] at h; injection h with h; subst h
                       exact hb
 
+/-- what the code answers when only the DNF finds the marker unsatisfiable: `marker.only(…)` is neither the
+universal nor the empty marker, `dnf(marker)` is the empty marker — `convert_markers` then has no entry for
+`python_version` at all, which `get_python_constraint_from_marker` reads as "python_version is arbitrary" -/
+theorem gpc_any_of_dnf_empty (m pm : M) (ho : m.only Gen.pythonVersionMarkers.reverse = .ok pm)
+    (h1 : pm.isAny = false) (h2 : pm.isEmpty = false) (hd : dnf defaultFuel [] m = .ok .empty) :
+    gpc m = .ok VC.any := by
+  simp only [gpc, bind, Except.bind, ho, h1, h2, Bool.false_eq_true, if_false, convertMarkersFor, hd,
+    membersIfUnion, List.mapM_cons, List.mapM_nil, conjPairs, pure, Except.pure]
+  rfl
+
 end Poetry.Marker
